@@ -684,6 +684,40 @@ def gen_cases(ctx):
                 cfg['num_of_generations'] = min(cfg['num_of_generations'], 4 if quick else 6)
                 cases.append({'group': 'metric:diversity_refill', 'cfg': cfg})
                 i += 1
+    # A4. the parallel dispatcher (parallelization_mode='populational', n_jobs=1) with batches that mix already
+    # evaluated individuals with new ones that ALL fail: extension of the initial population where only the
+    # initial class evaluates, generations whose offspring all fail (its "get at least one" retry path)
+    par = [('evo', 'generational', 'after1'), ('evo', 'steady_state', 'only'), ('pop_random_mutation', 'generational', 'after2'),
+           ('surrogate', 'parameter_free', 'only'), ('evo', 'parameter_free', 'label')]
+    if not quick:
+        par = [(o, sch, f) for o in optrun.POPULATIONAL for sch in ('generational', 'steady_state', 'parameter_free')
+               for f in ('after1', 'after2', 'only', 'label', 'class')]
+    for j, (opt, sch, f) in enumerate(par):
+        if f == 'label' and hasattr(optrun, 'collapse_config'):
+            cfg = optrun.collapse_config(rng, optimiser=opt)
+            cfg['num_of_generations'] = min(cfg['num_of_generations'], 4)
+            cfg['show_progress'] = bool(i % 2)
+            cfg['timeout_min'] = 5.0
+        else:
+            cfg = base_cfg(rng, opt, i)
+            ini = rng.choice(['single', 'chain', 'two'])
+            cfg['initial'] = ini
+            cfg['pop_size'] = rng.choice([3, 5, 6])
+            kind = KINDS[i % 3]
+            if f == 'after1':
+                cfg['objective']['faults'] = {'all_after': [1, kind]}
+            elif f == 'after2':
+                cfg['objective']['faults'] = {'all_after': [rng.choice([2, 3, 4]), kind]}
+            elif f == 'class':
+                cfg['objective']['faults'] = {'by_class': [2, rng.randrange(2), kind]}
+            else:
+                cfg['objective']['faults'] = {'only_size': [INITIAL_SIZES[ini][0], kind]}
+            if j % 3 == 0:
+                cfg['diversity_check'] = 1
+        cfg['scheme'] = sch
+        cfg['parallelization_mode'] = 'populational'
+        cases.append({'group': 'metric:parallel_dispatcher', 'cfg': cfg})
+        i += 1
     # B. persistence faults (populational classes dump; the random-search family never does)
     ios = [{'mode': 'ok'}, {'mode': 'block_from', 'n': 0}, {'mode': 'block_from', 'n': 1}, {'mode': 'block_from', 'n': 2},
            {'mode': 'save_patch', 'n': 0}, {'mode': 'save_patch', 'n': 3}, {'mode': 'save_patch', 'n': 7},
